@@ -26,14 +26,16 @@ import OV.Gen.C08Trace24
 import OV.Gen.C08Trace25
 import OV.Gen.C08Trace26
 import OV.Gen.C08Trace27
+import OV.Gen.C08Trace28
+import OV.Gen.C08Trace29
 /-! GENERATED — the whole trace table. -/
 namespace OV.Gen.C08Trace
-def traceTable : List (String × String) := table0 ++ (table1 ++ (table2 ++ (table3 ++ (table4 ++ (table5 ++ (table6 ++ (table7 ++ (table8 ++ (table9 ++ (table10 ++ (table11 ++ (table12 ++ (table13 ++ (table14 ++ (table15 ++ (table16 ++ (table17 ++ (table18 ++ (table19 ++ (table20 ++ (table21 ++ (table22 ++ (table23 ++ (table24 ++ (table25 ++ (table26 ++ (table27)))))))))))))))))))))))))))
-def nRows : Nat := 879
+def traceTable : List (String × String) := table0 ++ (table1 ++ (table2 ++ (table3 ++ (table4 ++ (table5 ++ (table6 ++ (table7 ++ (table8 ++ (table9 ++ (table10 ++ (table11 ++ (table12 ++ (table13 ++ (table14 ++ (table15 ++ (table16 ++ (table17 ++ (table18 ++ (table19 ++ (table20 ++ (table21 ++ (table22 ++ (table23 ++ (table24 ++ (table25 ++ (table26 ++ (table27 ++ (table28 ++ (table29)))))))))))))))))))))))))))))
+def nRows : Nat := 949
 
 theorem ok_all : ∀ e ∈ traceTable, e.1 = e.2 := by
   intro e he
   simp only [traceTable, List.mem_append] at he
-  rcases he with he | he | he | he | he | he | he | he | he | he | he | he | he | he | he | he | he | he | he | he | he | he | he | he | he | he | he | he
-  all_goals first | exact ok0 e he | exact ok1 e he | exact ok2 e he | exact ok3 e he | exact ok4 e he | exact ok5 e he | exact ok6 e he | exact ok7 e he | exact ok8 e he | exact ok9 e he | exact ok10 e he | exact ok11 e he | exact ok12 e he | exact ok13 e he | exact ok14 e he | exact ok15 e he | exact ok16 e he | exact ok17 e he | exact ok18 e he | exact ok19 e he | exact ok20 e he | exact ok21 e he | exact ok22 e he | exact ok23 e he | exact ok24 e he | exact ok25 e he | exact ok26 e he | exact ok27 e he
+  rcases he with he | he | he | he | he | he | he | he | he | he | he | he | he | he | he | he | he | he | he | he | he | he | he | he | he | he | he | he | he | he
+  all_goals first | exact ok0 e he | exact ok1 e he | exact ok2 e he | exact ok3 e he | exact ok4 e he | exact ok5 e he | exact ok6 e he | exact ok7 e he | exact ok8 e he | exact ok9 e he | exact ok10 e he | exact ok11 e he | exact ok12 e he | exact ok13 e he | exact ok14 e he | exact ok15 e he | exact ok16 e he | exact ok17 e he | exact ok18 e he | exact ok19 e he | exact ok20 e he | exact ok21 e he | exact ok22 e he | exact ok23 e he | exact ok24 e he | exact ok25 e he | exact ok26 e he | exact ok27 e he | exact ok28 e he | exact ok29 e he
 end OV.Gen.C08Trace
